@@ -135,6 +135,21 @@ func GenHistoryFamily(w *Writer, r *Rng, t Tier) error {
 			}
 			exprs = append(exprs, compiled{e, xp, gr})
 		}
+		// expressions whose meaning depends on the bindings of the call: the same compiled object is
+		// executed under different bindings and must behave like a freshly compiled one every time
+		for _, xp := range []string{"count(//p:*)", "string(u:id())", "count(//*[u:id() = 'A'])", "name(//q:*[1])", "$w"} {
+			if gr, err := xsel.BuildExpr(xp); err == nil {
+				exprs = append(exprs, compiled{nil, xp, gr})
+			}
+		}
+		idFn := func(tag string) xsel.Function {
+			return func(ctx xsel.Context, args ...xsel.Result) (xsel.Result, error) { return xsel.String(tag), nil }
+		}
+		variants := [][]xsel.ContextApply{
+			{xsel.WithNS("u", "urn:lib:a"), xsel.WithFunctionNS("urn:lib:a", "id", idFn("A")), xsel.WithFunctionNS("urn:lib:b", "id", idFn("B")), xsel.WithVariable("w", xsel.String("one"))},
+			{xsel.WithNS("u", "urn:lib:b"), xsel.WithFunctionNS("urn:lib:a", "id", idFn("A")), xsel.WithFunctionNS("urn:lib:b", "id", idFn("B")), xsel.WithNS("p", "urn:b"), xsel.WithNS("q", "urn:a"), xsel.WithVariable("w", xsel.Number(2))},
+			{xsel.WithFunctionNS("urn:lib:a", "id", idFn("A")), xsel.WithNS("p", "http://x/y")},
+		}
 		firstResult := map[string]string{}
 		var held []xsel.NodeSet
 		var heldSnap [][]int
@@ -163,14 +178,36 @@ func GenHistoryFamily(w *Writer, r *Rng, t Tier) error {
 		for s := 0; s < steps; s++ {
 			c := exprs[dr.Intn(len(exprs))]
 			start := dr.Intn(len(d.Cursors))
-			res, err := func() (res xsel.Result, err error) {
+			vi := dr.Intn(len(variants) + 2)
+			callSettings := settings
+			if vi < len(variants) {
+				callSettings = append(append([]xsel.ContextApply{}, settings...), variants[vi]...)
+			} else {
+				vi = -1
+			}
+			run := func(g *xsel.Grammar) (res xsel.Result, err error) {
 				defer func() {
 					if rec := recover(); rec != nil {
 						err = fmt.Errorf("panic")
 					}
 				}()
-				return xsel.Exec(d.Cursors[start], &c.g, settings...)
-			}()
+				return xsel.Exec(d.Cursors[start], g, callSettings...)
+			}
+			res, err := run(&c.g)
+			// reference: the same text compiled afresh, same node, same bindings
+			if fresh, ferr := xsel.BuildExpr(c.xp); ferr == nil && problem == "" {
+				fres, ferr2 := run(&fresh)
+				a, b := "err", "err"
+				if err == nil {
+					a = EncResult(d, res)
+				}
+				if ferr2 == nil {
+					b = EncResult(d, fres)
+				}
+				if a != b {
+					problem = fmt.Sprintf("reused compiled %q from node %d under binding variant %d gave %s, freshly compiled gives %s", c.xp, start, vi, a, b)
+				}
+			}
 			impl := "err"
 			if err == nil {
 				impl = EncResult(d, res)
@@ -179,7 +216,7 @@ func GenHistoryFamily(w *Writer, r *Rng, t Tier) error {
 					heldSnap = append(heldSnap, snapshotSlice(d, ns))
 				}
 			}
-			key := fmt.Sprintf("%s@%d", c.xp, start)
+			key := fmt.Sprintf("%s@%d@%d", c.xp, start, vi)
 			if prev, seen := firstResult[key]; seen && prev != impl && problem == "" {
 				problem = fmt.Sprintf("repeating %q from node %d gave %s, earlier %s", c.xp, start, impl, prev)
 			}
